@@ -143,6 +143,9 @@ func (w *World) initFrom(appState []byte, height int64) (*Node, string) {
 
 // takeFork exports the reference node and builds the imported nodes. Only armed for C15.
 func (w *World) takeFork() {
+	if w.armedC08 {
+		w.importAndCheckCounters()
+	}
 	if !w.armedC15 || w.Fork != nil {
 		return
 	}
@@ -365,4 +368,63 @@ func importSite(p string) string {
 		return "stream-escrow-ne-deposits"
 	}
 	return "other"
+}
+
+// importAndCheckCounters (C08 across an export/import): the state is exported the way `und export`
+// does, a fresh chain is initialised from the document, and on that chain the reported counters of
+// every WRKChain and BEACON must match what can actually be queried. Whether the import works at
+// all, and whether it is lossless, is C15's subject and is not judged here.
+func (w *World) importAndCheckCounters() {
+	var raw []byte
+	var height int64
+	if p, _ := safely(func() {
+		exp := &Node{Idx: 101, Cfg: DefaultRefCfg(), DB: w.Ref.DB}
+		exp.Open()
+		e, err := exp.App.ExportAppStateAndValidators(false, nil, nil)
+		if err != nil {
+			panic(err)
+		}
+		raw, height = e.AppState, e.Height
+	}); p != "" {
+		return
+	}
+	b, p := w.initFrom(raw, height)
+	if p != "" {
+		return
+	}
+	w.Probe("c08.imported-chain-checked")
+	wb := &World{Ref: b, St: w.St, T: w.T}
+	bctx := b.App.BaseApp.NewContext(false, MakeHeader(height, w.Now, nil))
+	for _, v := range regViews {
+		var ids []uint64
+		if v.kind == "wrk" {
+			for _, c := range b.App.WrkchainKeeper.GetAllWrkChains(bctx) {
+				ids = append(ids, c.WrkchainId)
+			}
+		} else {
+			for _, c := range b.App.BeaconKeeper.GetAllBeacons(bctx) {
+				ids = append(ids, c.BeaconId)
+			}
+		}
+		for _, id := range ids {
+			o := v.obs(wb, bctx, id)
+			keys := v.keysInState(wb, bctx, id)
+			first := uint64(0)
+			if len(keys) > 0 {
+				first = keys[0]
+			}
+			if !o.Found || o.StoreErr != nil {
+				continue
+			}
+			if len(keys) > ExportCap-1 {
+				w.Probe("c08.imported-registration-at-export-cap")
+			}
+			if o.Num != uint64(len(keys)) || o.Used != uint64(len(keys)) || (len(keys) > 0 && o.First != first) {
+				w.Violate("C08", "C08/"+v.kind+"/counters-differ-from-state/after-import", "chain initialised from the export of height %d: %s %d reports num=%d used=%d first=%d; state holds %d records, first=%d", height, v.kind, id, o.Num, o.Used, o.First, len(keys), first)
+			}
+			if uint64(len(keys)) > o.Limit {
+				w.Violate("C08", "C08/"+v.kind+"/more-records-than-limit/after-import", "%s %d holds %d records with limit %d after import", v.kind, id, len(keys), o.Limit)
+			}
+		}
+	}
 }
